@@ -159,4 +159,8 @@ def WF (tasks : List Task) : Prop :=
 instance (tasks : List Task) : Decidable (WF tasks) := by
   unfold WF; exact inferInstance
 
+/-- First declaration with a given name. -/
+def findName {α} (name : α → String) (n : String) (l : List α) : Option α := l.find? fun c => name c == n
+
+
 end Channels
